@@ -1401,4 +1401,86 @@ theorem allRoutes_head (rx : RxOracle) (req : Req) (rules : List Rule) :
   rw [allRoutes_eq, selectRoute_eq, List.head?_filter]
   exact find?_range_eq_findIdx? (matchRule rx req) rules
 
+
+/-! ## well-formedness and case-insensitivity of the declarative precedence -/
+
+theorem entriesFrom_idx : ∀ (vs : List VHostCfg) (k : Int) (e : Entry), e ∈ entriesFrom vs k →
+    k ≤ e.idx ∧ e.idx < k + vs.length
+  | [], _, e, h => by simp [entriesFrom] at h
+  | v :: r, k, e, h => by
+    simp only [entriesFrom, List.mem_append, List.mem_filterMap] at h
+    rcases h with ⟨d, _, hd⟩ | h
+    · cases hs : splitGraceful (lower d) with
+      | none => rw [hs] at hd; simp at hd
+      | some hp =>
+        rw [hs] at hd; simp at hd
+        subst hd; simp; omega
+    · have := entriesFrom_idx r (k + 1) e h
+      simp only [List.length_cons]; omega
+
+theorem best_mem' {α : Type} (key : α → Nat) (l : List α) (x : α) (h : best key l = some x) : x ∈ l :=
+  (best_spec key l x h).1
+
+/-- the precedence always names a configured virtual host, or −1 -/
+theorem vhost_index_valid (cfg : Config) (hv : Option Str) :
+    Spec.vhost cfg hv = -1 ∨ (0 ≤ Spec.vhost cfg hv ∧ Spec.vhost cfg hv < cfg.length) := by
+  have hmem : ∀ e ∈ entries cfg, 0 ≤ e.idx ∧ e.idx < cfg.length := by
+    intro e he; have := entriesFrom_idx cfg 0 e he; omega
+  have hfind : ∀ (q : Entry → Bool) i, ((entries cfg).find? q).map (·.idx) = some i → 0 ≤ i ∧ i < cfg.length := by
+    intro q i h
+    cases hf : (entries cfg).find? q with
+    | none => rw [hf] at h; cases h
+    | some e => rw [hf] at h; injection h with h; rw [← h]; exact hmem e (List.mem_of_find?_eq_some hf)
+  have hbest : ∀ (q : Entry → Bool) i,
+      (best (fun e => e.suffix.length) ((entries cfg).filter q)).map (·.idx) = some i → 0 ≤ i ∧ i < cfg.length := by
+    intro q i h
+    cases hf : best (fun e : Entry => e.suffix.length) ((entries cfg).filter q) with
+    | none => rw [hf] at h; cases h
+    | some e =>
+      rw [hf] at h; injection h with h; rw [← h]
+      exact hmem e ((List.mem_filter.mp (best_mem' _ _ _ hf)).1)
+  have chain : ∀ (a b c d e : Option Int), (∀ i, a = some i → 0 ≤ i ∧ i < cfg.length) →
+      (∀ i, b = some i → 0 ≤ i ∧ i < cfg.length) → (∀ i, c = some i → 0 ≤ i ∧ i < cfg.length) →
+      (∀ i, d = some i → 0 ≤ i ∧ i < cfg.length) → (∀ i, e = some i → 0 ≤ i ∧ i < cfg.length) →
+      (((a.or (b.or (c.or d))).or e).getD (-1) = -1 ∨
+        (0 ≤ ((a.or (b.or (c.or d))).or e).getD (-1) ∧ ((a.or (b.or (c.or d))).or e).getD (-1) < cfg.length)) := by
+    intro a b c d e ha hb hc hd he
+    cases a with
+    | some i => right; simpa using ha i rfl
+    | none =>
+      cases b with
+      | some i => right; simpa using hb i rfl
+      | none =>
+        cases c with
+        | some i => right; simpa using hc i rfl
+        | none =>
+          cases d with
+          | some i => right; simpa using hd i rfl
+          | none =>
+            cases e with
+            | some i => right; simpa using he i rfl
+            | none => left; rfl
+  unfold Spec.vhost
+  cases hr : reqHost hv with
+  | none =>
+    simp only []
+    have := chain none none none none _ (by simp) (by simp) (by simp) (by simp) (hfind Entry.isDefault)
+    simpa using this
+  | some hp =>
+    obtain ⟨h, p⟩ := hp
+    simp only []
+    exact chain _ _ _ _ _ (hfind _) (hfind _) (hbest _) (hbest _) (hfind Entry.isDefault)
+
+theorem lower_eq_nil (h : Str) : lower h = [] ↔ h = [] := by simp [lower]
+
+/-- **case-insensitivity**: two Host values that differ only in letter case select the same virtual host -/
+theorem vhost_case_insensitive_core (cfg : Config) (h h' : Str) (heq : lower h = lower h') :
+    Spec.vhost cfg (some h) = Spec.vhost cfg (some h') := by
+  have hnil : (h = []) ↔ (h' = []) := by rw [← lower_eq_nil h, ← lower_eq_nil h', heq]
+  unfold Spec.vhost reqHost
+  by_cases h0 : h = []
+  · have h0' := hnil.mp h0; simp [h0, h0']
+  · have h0' : ¬ h' = [] := fun c => h0 (hnil.mpr c)
+    simp only [h0, h0', if_false, heq]
+
 end MosnVerif.Model.Route
